@@ -553,6 +553,7 @@ class Context:
             if v == 'sat':
                 rec['model'] = self._input_values(self._best_model(nf) or {})
                 rec['quality'] = self.last_model_quality
+                rec['alt_models'] = self._alt_int_models(nf, rec['model'])
         self.claims.append(rec)
         return rec['verdict'] == 'unsat'
 
@@ -618,6 +619,25 @@ class Context:
                 return m
         v, m = self.full_model(bad)
         return m if v == 'sat' else None
+
+    def _alt_int_models(self, bad, first, n=3):
+        """Further counterexamples that differ in the integer inputs (budgets, call
+        numbers, positions): the float replay may need another one of them."""
+        ints = [nm for nm in self.input_order if vsort(self.inputs[nm]) == 'I' and not nm.startswith('rng_')]
+        if not ints:
+            return []
+        out = []
+        block = []
+        cur = first
+        for _ in range(n):
+            block.append(Or.make([Cmp.make(Poly.var(self.inputs[nm]) - Poly.const(int(cur[nm])), '!=')
+                                  for nm in ints if nm in cur]))
+            v, m = self.full_model(And.make([bad] + block), self.t_branch)
+            if v != 'sat':
+                break
+            cur = self._input_values(m)
+            out.append(cur)
+        return out
 
     def _input_values(self, m):
         out = {}
